@@ -124,6 +124,24 @@ TEXTS = ["the alpha thing", "dataset name", "learning rate used", "a thing", "so
          "e.g. 5", "has [brackets] inside", "PK of nothing", "etc. and so on", "x", "naïve café – ünï", "it's 'quoted' inside", "100% of a/b"]
 FK_TARGETS = ["user.id", "tbl.col", "other_table.dataset_name", "t.c"]
 HEADER_DOCS = ["", "Summary line.", "Summary line.\n\nLonger description here.", "A table of things", "  indented start"]
+_SECTION_WORDS = re.compile(r"^\s*(:?(param|type|return|returns|rtype|raises|arg|args|arguments|parameters|yields|yield|attributes|example|examples|note|notes|kwargs|keyword)\b)", re.I)
+
+
+def prose_only(doc: str) -> bool:
+    """Domain of the header description and of the `returns` description: plain prose.  Every emission hands the header text to
+    the docstring emitter and every parser reads it back with the docstring *parser*, so a text that itself looks like
+    docstring syntax — a `:param x:` / `:return:` field, a Google/NumPy section word at a line start (`Returns`, `Args:` …),
+    an underline of dashes/equals (`-------`) — is re-interpreted (phantom columns, or the docstring parser raising IndexError on
+    the de-indented `Returns\n-------\nfoo`).  That belongs to the docstring properties (C01/C15), not to the columns C05
+    quantifies over, so such texts are excluded from this generator rather than listed as C05 findings."""
+    for line in doc.split("\n"):
+        t = line.strip()
+        if t.startswith(":") or _SECTION_WORDS.match(line) or (len(t) >= 3 and set(t) <= set("-=~")):
+            return False
+    return "```" not in doc and "`" not in doc
+
+
+assert all(prose_only(d) for d in HEADER_DOCS), "header docs must stay prose (see prose_only)"
 
 
 def gen_doc_dom(r, allow_pk):
@@ -171,6 +189,7 @@ def gen_case_dom(r, returns_p=0.0):
     returns = None
     if r.random() < returns_p:
         rt = {"typ": r.choice(["int", "str"]), "doc": r.choice(TEXTS)}
+        assert prose_only(rt["doc"])
         if r.random() < 0.4:
             rt["default"] = 5 if rt["typ"] == "int" else "x"
         returns = rt
